@@ -3,10 +3,12 @@
 set -euo pipefail
 export GOFLAGS=-mod=mod GOPROXY=off GOSUMDB=off GOTOOLCHAIN=local CGO_ENABLED=1
 ROOT=${VERIF_ROOT:-/verif}
+REPO=${VERIF_REPO:-/repo} # harness development only: the registered commands always build /repo
+export VERIF_REPO=$REPO
 OUT=$1; shift
 mkdir -p "$ROOT/.build"
 OV=$(mktemp "$ROOT/.build/ov.XXXXXX.json")
 trap 'rm -f $OV' EXIT
 VERIF_ROOT=$ROOT python3 "$ROOT/tools/mkoverlay.py" "$OV" "$@"
-cd /repo
+cd "$REPO"
 go build -tags verif -overlay "$OV" -o "$OUT" ./zzverif/cmd/vmain
